@@ -38,5 +38,10 @@ InvOrder == c.side \in {"parse", "write"} /\ ~Result(c).err =>
                   lg == Result(c).e.log
                   probes == SelectSeq(st, LAMBDA m : m \in {"P1", "P2", "P3", "L1"})
               IN [i \in DOMAIN lg |-> lg[i][1]] = probes
+\* a library handed in is transformed as a whole: the earlier entry's log equals the new entry's in probe names
+InvInto == c.side = "parse" /\ ~Result(c).err =>
+              LET a == Result(c).e.log  b == Result(c).pre.log IN
+              /\ Len(a) = Len(b) /\ \A i \in DOMAIN a : a[i][1] = b[i][1]
+              /\ Result(c).pre.mint = Result(c).e.mint
 InvBoth == c.side \in {"parse", "write"} => (Result(c).err <=> (c.ps # None /\ c.app # None))
 =============================================================================
